@@ -41,16 +41,51 @@ def gen_case(r, tier):
     else:
         kind = 'match'
     c.update({'op': 'lookup', 'ishape': ishape, 'isd': isd, 'flip': flip, 'kind': kind})
+    # geometry: the extension's affine and the image's.  Mostly equal (any kind of matrix: diagonal,
+    # signed permutation, cyclic permutation, oblique rotation, shear); sometimes the image has been
+    # given another matrix, whose slice row may or may not agree with the extension's
+    ea = gen_affine(r)
+    ia = ea
+    if kind == 'match' and r.random() < 0.25:
+        ia = gen_affine(r)
+        c['kind'] = 'other_affine'
+    c['eaff'] = [[float(x) for x in row] for row in ea]
+    c['iaff'] = [[float(x) for x in row] for row in ia]
     return c
+
+
+def gen_affine(r):
+    k = r.choice(['eye', 'diag', 'sperm', 'cyclic', 'oblique', 'oblique', 'shear', 'transpose_pair'])
+    A = np.eye(4)
+    if k == 'diag':
+        A[:3, :3] = np.diag([r.choice([1.0, 2.0, 0.5, -1.5]) for _ in range(3)])
+    elif k == 'sperm':
+        A = M.rand_affine(r)
+    elif k == 'cyclic':
+        P = np.zeros((3, 3))
+        sh = r.choice([1, 2])
+        for i in range(3):
+            P[(i + sh) % 3, i] = r.choice([1.0, 2.0, -1.0])
+        A[:3, :3] = P
+    elif k in ('oblique', 'transpose_pair'):
+        a, b = r.uniform(-0.6, 0.6), r.uniform(-0.6, 0.6)
+        Rx = np.array([[1, 0, 0], [0, np.cos(a), -np.sin(a)], [0, np.sin(a), np.cos(a)]])
+        Rz = np.array([[np.cos(b), -np.sin(b), 0], [np.sin(b), np.cos(b), 0], [0, 0, 1]])
+        R = Rx.dot(Rz).dot(np.diag([r.choice([1.0, 2.0]), 1.0, r.choice([1.0, 3.0])]))
+        A[:3, :3] = R.T if k == 'transpose_pair' else R
+    elif k == 'shear':
+        A[:3, :3] = np.array([[1.0, 0.0, 0.5], [0.0, 2.0, 0.0], [0.0, 0.25, 1.0]])
+    A[:3, 3] = [r.randint(-5, 5) for _ in range(3)]
+    return A
 
 
 def build(case):
     import nibabel as nb
     from dcmstack.dcmmeta import NiftiWrapper
-    ext = SM.build_parent(case)
-    aff = np.eye(4)
+    ext = SM.build_parent(case, affine=np.array(case['eaff']))
+    aff = np.array(case['iaff'])
     if case['flip'] and case['isd'] is not None:
-        aff[case['isd'], case['isd']] = -1.0
+        aff[case['isd'], :3] = -aff[case['isd'], :3]
     img = nb.Nifti1Image(np.zeros(case['ishape'], dtype=np.int16), aff)
     img.header.set_dim_info(slice=case['isd'])
     img.header.extensions.append(ext)
@@ -85,12 +120,15 @@ def call(w, key, index):
     return {'value': M.cv(v)}
 
 
-def aligned_flag(w):
-    hdr = w.nii_img.header
-    sd = hdr.get_dim_info()[2]
-    if sd is None or w.meta_ext.slice_normal is None:
+def aligned_flag(w, case):
+    """is the image's slice direction (row `slice_dim` of its affine, as the extension documents
+    its slice normal) the extension's?  Computed from the generated matrices, not through the
+    implementation's properties"""
+    if case['isd'] is None or case['sd'] is None:
         return False
-    return bool(np.allclose(w.nii_img.affine[sd, :3], w.meta_ext.slice_normal, atol=1e-6))
+    irow = np.array(case['iaff'])[case['isd'], :3] * (-1.0 if case['flip'] else 1.0)
+    erow = np.array(case['eaff'])[case['sd'], :3]
+    return bool(np.allclose(irow, erow, atol=1e-6))
 
 
 def affected(cls, case):
@@ -104,6 +142,8 @@ def affected(cls, case):
         return tuple(es[3:]) != tuple(isx[3:])
     # per slice classes
     if case['isd'] is None or case['sd'] is None or case['isd'] != case['sd'] or case['flip']:
+        return True
+    if case['kind'] == 'other_affine' and not aligned_flag(None, case):
         return True
     if es[case['sd']] != isx[case['isd']]:
         return True
@@ -139,11 +179,12 @@ def main(pid, tier):
             continue
         rep.count('lookup/kind/' + case['kind'])
         rep.sample({'suite': 'lookup', 'case': case}, cap=3)
-        al = aligned_flag(w)
+        al = aligned_flag(w, case)
         good, bad = indices_for(r, case)
         keys = [e[0] for e in case['ents']] + ['absent_key']
         ent = {e[0]: e for e in case['ents']}
-        matched = (case['kind'] == 'match' and case['sd'] is not None)
+        matched = (case['kind'] == 'match' and case['sd'] is not None) or \
+            (case['kind'] == 'other_affine' and case['sd'] is not None and al)
         for k in keys:
             cls = ent[k][1] if k in ent else None
             rep.count('lookup/class/%s' % cls)
